@@ -77,7 +77,7 @@ Definition sstep (o : op) (s : sreq) : out * sreq * option sreq :=
   | Copy =>
       match sconv s with
       | (Some s1, _) =>
-          (ONew true, s_cur s1 (length (sbody s1)), Some (mkS (sbody s1) 0 MHeld false (sform s1)))
+          (ONew true, s_cur s1 0, Some (mkS (sbody s1) 0 MHeld false (sform s1)))
       | (None, s1) => (ODisc, s1, None)
       end
   | CopyGet => (ONew true, s, Some (mkS [] 0 MHeld false false))
